@@ -23,7 +23,7 @@ for diff in sorted(glob.glob(os.path.join(V, 'mutants', '*.diff'))):
     t0 = time.time()
     tests = subprocess.run('cargo test --offline 2>&1 | grep -E "^test result"', shell=True, cwd=wt, stdout=subprocess.PIPE, text=True).stdout
     c = subprocess.run([sys.executable, os.path.join(V, 'tools/check.py'), prop, '--tier', 'quick'], cwd=V, env=dict(os.environ, VERIF_REPO=wt),
-                       stdout=subprocess.PIPE, stderr=subprocess.STDOUT, text=True)
+                       stdout=subprocess.PIPE, stderr=subprocess.STDOUT, text=True, errors="replace")
     lines = [l for l in c.stdout.splitlines() if l.startswith('VIOLATION') or l.startswith('  ')][:4]
     results[name] = {'applies': True, 'property': prop, 'tests_pass': '36 passed' in tests and '13 passed' in tests, 'check_rc': c.returncode,
                      'detected': c.returncode == 1, 'wall_s': round(time.time() - t0), 'lines': lines, 'repo_head': head[:7]}
